@@ -55,19 +55,28 @@ def ctx_for(lines, l):
     ops = [json.loads(x)["o"] for x in lines[i + 1:l]]
     return {"beh": ops, "pool": POOLS.get("vset")}
 
-def impl_predictions(c, beh_path, limit=60):
-    """SetImpl.tla (Go slices made explicit) predicts histories in which acting on one set changes
-    another; they are appended to the behaviours replayed on real ValueSets (same trace spec)."""
+def impl_predictions(c, beh_path, limit=40, elems=None, nocopy=False):
+    """SetImpl.tla (Go slices made explicit) predicts, under hypotheses about where two sets might share a bucket
+    slice (Copy, Union) or touch a shared array in place (Remove), histories in which acting on one set changes
+    another; they are appended to the behaviours replayed on the real sets (same trace spec).  elems: pool indices
+    of five mutually different members of ONE hash bucket."""
     first = json.loads(open(beh_path).readline())
     pool = first["pool"]
-    unk = [i + 1 for i, p in enumerate(pool) if p["unk"]]
-    c.tlc_mc("SetImpl", cfg="SetImplFixed.cfg", workers=8)     # the repaired algorithm isolates copies (design level)
-    preds = c.tlc_emit("SetImpl", "SetImpl.cfg", env={"VCOPYSHARES": "1"}, limit=limit)
+    if elems is None:
+        elems = [i + 1 for i, p in enumerate(pool) if p["unk"]]
+    c.tlc_mc("SetImpl", cfg="SetImplFixed.cfg", workers=8)     # the repaired algorithm isolates derived sets (design level)
+    total = 0
     with open(beh_path, "a") as f:
-        for p in preds:
-            b = json.loads(p)["beh"]
-            for o in b:
-                if "e" in o:
-                    o["e"] = unk[o["e"] - 1]
-            f.write(json.dumps({"beh": b, "pool": pool, "predicted": True}) + "\n")
-    return len(preds)
+        for hyp in (("union", "union+remove") if nocopy else ("copy", "union", "copy+remove", "union+remove")):
+            env = {"VHYP": hyp}
+            if nocopy:
+                env["VNOCOPY"] = "1"
+            preds = c.tlc_emit("SetImpl", "SetImpl.cfg", env=env, limit=limit)
+            for p in preds:
+                b = json.loads(p)["beh"]
+                for o in b:
+                    if "e" in o:
+                        o["e"] = elems[o["e"] - 1]
+                f.write(json.dumps({"beh": b, "pool": pool, "predicted": hyp}) + "\n")
+            total += len(preds)
+    return total
